@@ -20,6 +20,8 @@ OPS3 = ["ret", "ret0", "raise", "raiseB", "raiseSP", "raiseIE", ("T", 0), ("T", 
 # fourth alphabet: payloads with a liberal ==, exception objects as values of successful events
 OPS4 = ["ret", ("T", 0), ("W", 0, True), ("S", 0), ("SX", 0), ("F", 0), ("J", True), ("CB", 0)]
 OPS2 = ["ret", "raise", ("T", 0), ("W", 0, True), ("W", 1, False), ("S", 0), ("F", 0), ("S", 1), ("F", 1), ("J", True), ("CB", 1)]
+# fifth alphabet: a chain reaction - event 1 takes over the outcome of event 0 (Event.trigger used as a callback)
+OPS5 = ["ret", ("T", 0), ("W", 0, True), ("W", 1, True), ("W", 1, False), ("S", 0), ("F", 0), ("CH", 0, 1), ("CB", 1)]
 MAP = {"once": "C02.once", "value": "C02.value", "processed": "C02.processed", "retrigger": "C02.retrigger",
        "term": "C02.term", "crash": "C02.crash"}
 
@@ -30,7 +32,7 @@ def plan(tier, seed):
     cfgs = [dict(depth=d, ops=1, nproc=2), dict(depth=d, ops=2, nproc=2), dict(depth=d - 1, ops=1, nproc=3), dict(depth=d - 1, ops=3, nproc=2),
             # process events without any callback of ours: a terminated process must be processed even when nobody waits yet
             dict(depth=d - 1, ops=1, nproc=2, noprobe=1), dict(depth=d - 1, ops=3, nproc=2, noprobe=1),
-            dict(depth=d - 1, ops=4, nproc=2, liberal=1), dict(depth=d - 1, ops=4, nproc=2), dict(depth=d - 1, ops=1, nproc=2, duck=1),
+            dict(depth=d - 1, ops=4, nproc=2, liberal=1), dict(depth=d - 1, ops=4, nproc=2), dict(depth=d - 1, ops=1, nproc=2, duck=1), dict(depth=d, ops=5, nproc=2),
             # one process consuming 1200 already processed events in a row, then 1200 fresh ones (a single long execution)
             dict(endurance=1200)]
     return {"cfgs": cfgs, "budget": None, "bound": "D<=%d with 2 initial processes (alphabets: one / two shared events; falsy returns + non-Exception BaseException at D-1), D<=%d with 3; <=4 processes" % (d, d - 1)}
@@ -77,7 +79,7 @@ def endurance(cfg):
 def execute(ch, cfg):
     if cfg.get("endurance"):
         return endurance(cfg)
-    k = KC.K(ch, {1: OPS, 2: OPS2, 3: OPS3, 4: OPS4}[cfg["ops"]], cfg["depth"], nproc=cfg["nproc"], reaction=False, probe_procs=not cfg.get("noprobe"),
+    k = KC.K(ch, {1: OPS, 2: OPS2, 3: OPS3, 4: OPS4, 5: OPS5}[cfg["ops"]], cfg["depth"], nproc=cfg["nproc"], reaction=False, probe_procs=not cfg.get("noprobe"),
              liberal_values=bool(cfg.get("liberal")), duck=bool(cfg.get("duck"))).run()
     res = Result()
     res.digest = k.digest()
